@@ -207,6 +207,8 @@ Denote(cs) ==
 (* Every Checks* operator takes the observation o, the case cs and its      *)
 (* denotation d, and returns a sequence of [name, problem] ("" = passed).   *)
 Crashed(p) == p.k \in {"panic", "timeout"}
+(* how a crashed probe appears in a signature: kind and innermost repository frame *)
+CrashOf(p) == p.k \o "@" \o p.site
 LitComps(p) ==
   CASE p.form = "rest" -> Rest(p.itype, p.base, p.rid, p.ver)      \* itype: the type inside the Identity
     [] p.form = "frag" -> Frag(p.frag)
@@ -233,8 +235,8 @@ LitConsistent(text, red, p1, p2) ==
 (* Judgement of parse(text) -> p1, parse(format(p1)) -> p2, where sp is the  *)
 (* specification's Parse(text).  "" when permitted, else what is wrong.      *)
 LitParseVerdict(text, sp, red, p1, p2) ==
-  IF Crashed(p1) THEN p1.k
-  ELSE IF Crashed(p2) THEN "reparse-" \o p2.k
+  IF Crashed(p1) THEN CrashOf(p1)
+  ELSE IF Crashed(p2) THEN "reparse-" \o CrashOf(p2)
   ELSE IF sp.k = "ok" /\ ~red THEN
      (IF p1.k # "ok" THEN "rejected-valid"
       ELSE IF ~LitEq(p1, sp.c) THEN "wrong-components"
@@ -254,8 +256,8 @@ LitParseVerdict(text, sp, red, p1, p2) ==
 (* Identity - an absolute URL from an identity without a base - so only the *)
 (* first parse is judged)                                                   *)
 IdParseVerdict(p, p2, mustAccept, want) ==
-  IF Crashed(p) THEN p.k
-  ELSE IF Crashed(p2) THEN "reparse-" \o p2.k
+  IF Crashed(p) THEN CrashOf(p)
+  ELSE IF Crashed(p2) THEN "reparse-" \o CrashOf(p2)
   ELSE IF mustAccept THEN
      (IF p.k # "ok" THEN "rejected-valid"
       ELSE IF ~IdEq(p, want.type, want.rid, want.ver) THEN "wrong-components"
@@ -267,8 +269,8 @@ IdParseVerdict(p, p2, mustAccept, want) ==
 CanEq(p, u, v, f) == p.k = "ok" /\ p.url = u /\ p.ver = v /\ p.frag = f
 SameCan(p, q) == p.k = "ok" /\ q.k = "ok" /\ p.url = q.url /\ p.ver = q.ver /\ p.frag = q.frag /\ p.str = q.str
 CanonParseVerdict(text, sp, p, p2) ==
-  IF Crashed(p) THEN p.k
-  ELSE IF Crashed(p2) THEN "reparse-" \o p2.k
+  IF Crashed(p) THEN CrashOf(p)
+  ELSE IF Crashed(p2) THEN "reparse-" \o CrashOf(p2)
   ELSE IF sp.k = "ok" THEN
      (IF p.k # "ok" THEN "rejected-valid"
       ELSE IF ~CanEq(p, sp.url, sp.ver, sp.frag) THEN "wrong-components"
@@ -284,7 +286,7 @@ CanonParseVerdict(text, sp, p, p2) ==
 
 (* FHIRPath read-back of a stored reference string *)
 ReadBackVerdict(p, text) ==
-  IF Crashed(p) THEN p.k
+  IF Crashed(p) THEN CrashOf(p)
   ELSE IF p.k = "skip" THEN ""
   ELSE IF p.k = "ok" /\ p.s = text THEN ""
   ELSE IF p.k = "empty" /\ text = "" THEN ""
@@ -303,7 +305,9 @@ CaseClass(cs, d) ==
     [] cs.kind = "frag"  -> "frag:" \o cs.ridc
     [] cs.kind = "urn"   -> "urn:" \o cs.ridc
     [] cs.kind = "canon" -> "canon:" \o (IF cs.type = "" THEN "" ELSE TypeClass(cs.type) \o ":") \o cs.basec \o "," \o cs.verc \o "," \o cs.ridc
-    [] cs.kind = "raw"   -> "raw:" \o cs.x \o (IF d.want.k = "ok" /\ d.want.c.form = "rest" THEN ":" \o TypeClass(d.want.c.type) ELSE "")
+    [] cs.kind = "raw"   -> "raw:" \o cs.x
+                            \o (IF d.want.k = "ok" /\ d.want.c.form = "rest" THEN ":" \o TypeClass(d.want.c.type) ELSE "")
+                            \o (IF d.text = "" THEN ":empty" ELSE IF Ch(d.text, 1) \in {"#", "|"} THEN ":nourl" ELSE "")
     [] cs.kind = "pool"  -> "pool:" \o TypeClass(cs.type) \o "," \o TypeClass(cs.x)
     [] OTHER -> cs.kind
 
@@ -325,20 +329,20 @@ ChecksIdentity(o, cs, d) ==
                /\ n.unvers = unv /\ n.withver = unv \o "/_history/9"
                /\ n.equalSelf /\ ~n.equalOther
       absValid == d.valid
-  IN << Chk("new", IF Crashed(n) THEN n.k
+  IN << Chk("new", IF Crashed(n) THEN CrashOf(n)
                    ELSE IF valid /\ n.k # "ok" THEN "rejected-valid"
                    ELSE IF n.k = "ok" /\ ~IdEq(n, cs.type, cs.rid, cs.ver) THEN "wrong-components"
                    ELSE ""),
         Chk("format", IF n.k = "ok" /\ ~fmtOk THEN "format-differs" ELSE ""),
         Chk("fromURL",
             LET p == o.fromURL IN
-            IF Crashed(p) THEN p.k
+            IF Crashed(p) THEN CrashOf(p)
             ELSE IF absValid /\ cs.ver = "" /\ p.k # "ok" THEN "rejected-valid"
             ELSE IF p.k = "ok" /\ ~(IdEq(p, cs.type, cs.rid, "") \/ IdEq(p, cs.type, cs.rid, cs.ver)) THEN "wrong-components"
             ELSE ""),
         Chk("fromHist",
             LET p == o.fromHist IN
-            IF Crashed(p) THEN p.k
+            IF Crashed(p) THEN CrashOf(p)
             ELSE IF absValid /\ cs.ver # "" /\ cs.base # "" /\ p.k # "ok" THEN "rejected-valid"
             ELSE IF p.k = "ok" /\ ~IdEq(p, cs.type, cs.rid, cs.ver) THEN "wrong-components"
             ELSE "") >>
@@ -353,15 +357,15 @@ ChecksLitFmt(o, cs, d) ==
       s == o.sref
       l == o.lit
       w == o.withBase
-  IN << Chk("strong", IF Crashed(s) THEN s.k
+  IN << Chk("strong", IF Crashed(s) THEN CrashOf(s)
                       ELSE IF valid /\ s.k # "ok" THEN "rejected-valid"
                       ELSE IF s.k = "ok" /\ ~(s.type = cs.type /\ s.rid = cs.rid /\ s.hist = cs.ver) THEN "wrong-components"
                       ELSE ""),
-        Chk("lit", IF Crashed(l) THEN l.k
+        Chk("lit", IF Crashed(l) THEN CrashOf(l)
                    ELSE IF valid /\ s.k = "ok" /\ l.k # "ok" THEN "rejected-valid"
                    ELSE IF l.k = "ok" /\ ~(LitEq(l, c0) /\ l.str = rel) THEN "wrong-components"
                    ELSE ""),
-        Chk("withBase", IF Crashed(w) THEN w.k
+        Chk("withBase", IF Crashed(w) THEN CrashOf(w)
                    ELSE IF valid /\ l.k = "ok" /\ d.baseStrict /\ w.k # "ok" THEN "rejected-valid"
                    ELSE IF w.k = "ok" /\ d.baseStrict /\ ~(LitEq(w, c) /\ w.str = d.text) THEN "wrong-components"
                    ELSE IF w.k = "ok" /\ d.baseSlashed
@@ -387,8 +391,8 @@ ChecksStrongWeak(o, cs, d) ==
       c0 == Rest(cs.type, "", cs.rid, cs.ver)
       rel == d.rel
       weakValid == d.relwant.k = "ok"
-      ks == {o.slit.k, o.wlit.k, o.nlit.k, o.sid.k, o.wid.k, o.isSW.k, o.isWS.k, o.isSS.k, o.isWW.k, o.isSN.k, o.isNS.k}
-      crashed == ks \cap {"panic", "timeout"}
+      probes == <<o.slit, o.wlit, o.nlit, o.sid, o.wid, o.isSW, o.isWS, o.isSS, o.isWW, o.isSN, o.isNS>>
+      crashed == {CrashOf(probes[i]) : i \in {j \in 1..Len(probes) : Crashed(probes[j])}}
       built == o.slit.k # "skip"       \* a typed reference exists (litfmt judges whether it must)
   IN << Chk("crash", IF crashed = {} THEN "" ELSE CHOOSE k \in crashed : TRUE),
         Chk("strong-info", IF valid /\ built /\ ~(LitEq(o.slit, c0) /\ o.slit.str = rel)
@@ -418,7 +422,8 @@ ChecksFragRef(o, cs, d) ==
       text == d.text
       typed(p) == LitEq(p, c) /\ p.hasType /\ p.type = cs.type /\ p.str = text
       untyped(p) == LitEq(p, c) /\ ~p.hasType /\ p.str = text
-      crashed == {o.flit.k, o.ulit.k, o.nlit.k} \cap {"panic", "timeout"}
+      lits == <<o.flit, o.ulit, o.nlit>>
+      crashed == {CrashOf(lits[i]) : i \in {j \in 1..3 : Crashed(lits[j])}}
       one(p, good) == IF valid /\ ~good THEN (IF p.k # "ok" THEN "rejected-valid" ELSE "wrong-components")
                       ELSE IF ~valid /\ p.k = "ok" /\ ~good THEN "accepted-inconsistent" ELSE ""
   IN << Chk("crash", IF crashed = {} THEN "" ELSE CHOOSE k \in crashed : TRUE),
@@ -434,13 +439,13 @@ ChecksWeakRef(o, cs, d) ==
   LET text == d.text
       sp == d.want
       w == o.wlit
-  IN << Chk("weak-info", IF Crashed(w) THEN w.k
+  IN << Chk("weak-info", IF Crashed(w) THEN CrashOf(w)
                          ELSE IF sp.k = "ok" /\ ~d.red /\ w.k # "ok" THEN "rejected-valid"
                          ELSE IF sp.k = "ok" /\ ~d.red /\ ~(LitEq(w, sp.c) /\ w.str = text) THEN "wrong-components"
                          ELSE IF w.k = "ok" /\ ~(w.str = Format(LitComps(w)) /\ TextAgrees(w.str, text, d.red)) THEN "accepted-inconsistent"
                          ELSE ""),
-        Chk("identity", IF Crashed(o.wid) THEN o.wid.k ELSE ""),
-        Chk("is-reflexive", IF Crashed(o.isWW) THEN o.isWW.k ELSE IF ~o.isWW.b THEN "not-reflexive" ELSE "") >>
+        Chk("identity", IF Crashed(o.wid) THEN CrashOf(o.wid) ELSE ""),
+        Chk("is-reflexive", IF Crashed(o.isWW) THEN CrashOf(o.isWW) ELSE IF ~o.isWW.b THEN "not-reflexive" ELSE "") >>
 
 (* ---- "canon": canonical.New, IdentityFromReference,                        *)
 (*      CanonicalIdentity.String, resource.NewCanonicalIdentity               *)
@@ -448,9 +453,9 @@ ChecksCanon(o, cs, d) ==
   LET text == d.text
       built == cs.kind = "canon"
   IN << Chk("parse", CanonParseVerdict(text, d.cwant, o.parsed, o.reparsed)),
-        Chk("new", IF ~built THEN "" ELSE IF Crashed(o.made) THEN o.made.k
+        Chk("new", IF ~built THEN "" ELSE IF Crashed(o.made) THEN CrashOf(o.made)
                    ELSE IF o.made.k # "ok" THEN "no-string" ELSE IF o.made.s # text THEN "format-differs" ELSE ""),
-        Chk("ctor", IF ~built THEN "" ELSE IF Crashed(o.ctor) THEN o.ctor.k
+        Chk("ctor", IF ~built THEN "" ELSE IF Crashed(o.ctor) THEN CrashOf(o.ctor)
                     ELSE IF cs.base # "" /\ o.ctor.k # "ok" THEN "rejected-valid"
                     ELSE IF o.ctor.k = "ok" /\ ~(CanEq(o.ctor, cs.base, cs.ver, cs.rid) /\ o.ctor.str = text) THEN "wrong-components"
                     ELSE "") >>
